@@ -149,6 +149,24 @@ def hist_strategy(tier):
     })
 
 
+OPT_OP = st.one_of(
+    st.tuples(st.just("add_opt"), st.integers(0, 2)), st.tuples(st.just("add_opt"), st.integers(0, 2)),
+    st.tuples(st.just("rem_opt"), st.integers(0, 2)), st.tuples(st.just("rem_opt"), st.integers(0, 2)),
+    st.tuples(st.just("add_trait_root")), st.tuples(st.just("set_extra")), st.tuples(st.just("readd_trait_root")),
+    st.tuples(st.just("add"), st.integers(0, 2), st.integers(0, 2), st.booleans()), st.tuples(st.just("rem_live"), st.integers(0, 5)),
+    st.tuples(st.just("gc")), st.tuples(st.just("kill_owner")),
+).map(list)
+
+
+def opt_strategy(tier):
+    """Histories concentrated on the optional trait that is observed before it exists."""
+    return st.fixed_dictionaries({
+        "exprs": st.lists(G.expr_strategy(), min_size=2, max_size=2),
+        "npool": st.just(2), "prelink": st.just([]), "dups": st.just(None),
+        "ops": st.lists(OPT_OP, min_size=3, max_size=12),
+    })
+
+
 def hist_run(case, ctx):
     if case.get("dups") is not None:
         case = dict(case)
@@ -546,6 +564,8 @@ def stages(tier):
     return [
         {"name": "hist", "kind": "hyp", "strategy": hist_strategy, "run": hist_run,
          "examples": {"quick": 4000, "thorough": 120000}, "shards": 16},
+        {"name": "optional", "kind": "hyp", "strategy": opt_strategy, "run": hist_run,
+         "examples": {"quick": 1500, "thorough": 40000}, "shards": 16},
         {"name": "fail", "kind": "hyp", "strategy": fail_strategy, "run": fail_run,
          "examples": {"quick": 2000, "thorough": 80000}, "shards": 16},
     ]
